@@ -168,6 +168,7 @@ def _prelude(case):
                     if not proj.is_var(x):
                         x.equation_bounds, x.is_tautology, x.is_contradiction
                 pm.evaluate({}); pm.evaluate_propositions({})
+                pm.negate(); pm.reduce()
         except Exception:
             pass
 
@@ -220,6 +221,7 @@ def drv_to_poly2(case):
 # ----------------------------------------------------------------------------- C05
 def drv_negate(case):
     puan, pg = _mods()
+    _prelude(case)
     m = _mk(case)
     if not _valid(m): return []
     tok = proj.Tok()
